@@ -276,6 +276,15 @@ VARIANTS = [
     {"name": "P R2 add() iterates a star-unpacked tuple", "file": REG, "expect": "silent",
      "old": "        vals = [value] + self.popall(key, [])\n        for val in vals:",
      "new": "        for val in (value, *self.popall(key, [])):"},
+    # ---- round 6 mechanisms
+    {"name": "R5 recorded names fetched before the region learns the grants", "file": HEM, "expect": "C16.R5",
+     "old": "                region.update_caps(parsed)\n",
+     "new": "                recorded = flow.metadata['needed_proxy_caps']\n                region.update_caps(parsed)\n"
+            "                LOG.debug('%d proxy-only caps to present', len(recorded))\n"},
+    {"name": "P R5 recorded names bound to an annotated local after update_caps", "expect": "silent", "edits": [
+        {"file": HEM, "old": "                region.update_caps(parsed)\n",
+         "new": "                region.update_caps(parsed)\n                recorded: List[str] = flow.metadata['needed_proxy_caps']\n"},
+        {"file": HEM, "old": "                for cap_name in flow.metadata['needed_proxy_caps']:", "new": "                for cap_name in recorded:"}]},
     # ---- documented limits
     {"name": "X only https URLs are tracked (validity filter is value-level)", "file": REG, "expect": "miss",
      "old": "cap_url.startswith('http')", "new": "cap_url.startswith('https')"},
